@@ -14,6 +14,16 @@
 //!   `ts <w0> <op>…`  ops `w<int ns since epoch>` set wall clock | `n` new Timestamp | `o` new
 //!                TimestampOnClose | `c` close the oldest pending TimestampOnClose
 //!   `resolve <e> <t> <r>`  which of explicit / thread-local / tokio-runtime time source is present
+//!   `env <op>…`  the time-source environment over time, four distinct fake sources s0..s3 (frozen monotonic
+//!                clocks, wall clocks in 1970, far from now): `i<g>:<s>` `let g = set_time_source(s)` |
+//!                `d<g>` drop(g) | `b<s>` enter `with_time_source(s, ..)` | `e` leave it | `r<s>`
+//!                `set_time_source_for_current_runtime(s)` | `q` drop its guard | `w<s>` / `a<s>` move source
+//!                s's wall / monotonic clock | `c<kind>[:<s>]` construct through one public constructor:
+//!                `sn` Stopwatch::new, `sd` ::default, `sx:s` ::new_from_timesource, `tn` Timer::start_now,
+//!                `td` ::default, `tx:s` ::start_now_with_timesource, `pn` Timestamp::now, `pd` ::default,
+//!                `px:s` ::new_from_time_source, `pt:s` ::new(s.system_time()), `od` TimestampOnClose::default.
+//!                Every object is probed at construction and again at the end: which source's clock moves
+//!                its readings (start/advance/stop/close), and whether the readings are exactly that clock's.
 //!
 //! Observables: after every prefix of the sequence the value of `(&stopwatch).close()` (when no
 //! `TimerGuard` borrows it), the value returned by every `stop()`, and the by-value close at the end.
@@ -31,7 +41,8 @@ use metrique::timers::{
     TimestampOnClose, TimestampValue,
 };
 use metrique_timesource::fakes::ManuallyAdvancedTimeSource;
-use metrique_timesource::{TimeSource, get_time_source, set_time_source};
+use metrique_timesource::tokio::{RuntimeTimeSourceGuard, set_time_source_for_current_runtime};
+use metrique_timesource::{ThreadLocalTimeSourceGuard, TimeSource, get_time_source, set_time_source, with_time_source};
 use metrique_writer_core::value::{MetricFlags, ValueFormatter};
 use metrique_writer_core::{Observation, Unit, ValidationError, Value, ValueWriter};
 use std::collections::BTreeMap;
@@ -137,6 +148,7 @@ enum Case {
     Timer { default_ts: bool, ops: Vec<TOp> },
     Ts { w0: i128, ops: Vec<SOp> },
     Resolve { e: bool, t: bool, r: bool },
+    Env { ops: Vec<EOp> },
 }
 
 impl Case {
@@ -179,6 +191,14 @@ impl Case {
                 s
             }
             Case::Resolve { e, t, r } => format!("resolve {} {} {}", *e as u8, *t as u8, *r as u8),
+            Case::Env { ops } => {
+                let mut s = String::from("env");
+                for o in ops {
+                    s.push(' ');
+                    s.push_str(&o.enc());
+                }
+                s
+            }
         }
     }
     /// the request line for the Lean driver
@@ -225,6 +245,7 @@ impl Case {
                     .collect::<Option<_>>()?;
                 Some(Case::Ts { w0, ops })
             }
+            "env" => Some(Case::Env { ops: rest.iter().map(|s| EOp::dec(s)).collect::<Option<_>>()? }),
             "resolve" => {
                 if rest.len() != 3 || rest.iter().any(|s| *s != "0" && *s != "1") {
                     return None;
@@ -703,6 +724,667 @@ fn run_resolve(e: bool, t: bool, r: bool) -> String {
     in_rt
 }
 
+// ------------------------------------------------------------------------------------------------
+// the time-source environment (`env` cases)
+
+const N_SRC: usize = 4;
+const N_GUARDS: usize = 4;
+/// wall clock of fake source j starts at (j+1)·10^15 ns after the epoch (January–February 1970)
+const WALL_BAND: u128 = 1_000_000_000_000_000;
+
+#[derive(Clone, Copy, Debug, PartialEq, Eq)]
+enum Kind {
+    Sn,
+    Sd,
+    Sx,
+    Tn,
+    Td,
+    Tx,
+    Pn,
+    Pd,
+    Px,
+    Pt,
+    Od,
+}
+
+const DEFAULT_KINDS: [Kind; 7] = [Kind::Sn, Kind::Sd, Kind::Tn, Kind::Td, Kind::Pn, Kind::Pd, Kind::Od];
+const EXPLICIT_KINDS: [Kind; 4] = [Kind::Sx, Kind::Tx, Kind::Px, Kind::Pt];
+
+impl Kind {
+    fn code(&self) -> &'static str {
+        match self {
+            Kind::Sn => "sn",
+            Kind::Sd => "sd",
+            Kind::Sx => "sx",
+            Kind::Tn => "tn",
+            Kind::Td => "td",
+            Kind::Tx => "tx",
+            Kind::Pn => "pn",
+            Kind::Pd => "pd",
+            Kind::Px => "px",
+            Kind::Pt => "pt",
+            Kind::Od => "od",
+        }
+    }
+    fn name(&self) -> &'static str {
+        match self {
+            Kind::Sn => "Stopwatch::new",
+            Kind::Sd => "Stopwatch::default",
+            Kind::Sx => "Stopwatch::new_from_timesource",
+            Kind::Tn => "Timer::start_now",
+            Kind::Td => "Timer::default",
+            Kind::Tx => "Timer::start_now_with_timesource",
+            Kind::Pn => "Timestamp::now",
+            Kind::Pd => "Timestamp::default",
+            Kind::Px => "Timestamp::new_from_time_source",
+            Kind::Pt => "Timestamp::new(source.system_time())",
+            Kind::Od => "TimestampOnClose::default",
+        }
+    }
+    fn explicit(&self) -> bool {
+        EXPLICIT_KINDS.contains(self)
+    }
+}
+
+#[derive(Clone, Copy, Debug, PartialEq, Eq)]
+enum EOp {
+    Install(u8, u8),
+    DropG(u8),
+    Begin(u8),
+    End,
+    InstallRt(u8),
+    DropRt,
+    Wall(u8),
+    Adv(u8),
+    Construct(Kind, Option<u8>),
+}
+
+impl EOp {
+    fn enc(&self) -> String {
+        match self {
+            EOp::Install(g, s) => format!("i{g}:{s}"),
+            EOp::DropG(g) => format!("d{g}"),
+            EOp::Begin(s) => format!("b{s}"),
+            EOp::End => "e".into(),
+            EOp::InstallRt(s) => format!("r{s}"),
+            EOp::DropRt => "q".into(),
+            EOp::Wall(s) => format!("w{s}"),
+            EOp::Adv(s) => format!("a{s}"),
+            EOp::Construct(k, None) => format!("c{}", k.code()),
+            EOp::Construct(k, Some(s)) => format!("c{}:{s}", k.code()),
+        }
+    }
+    fn dec(t: &str) -> Option<EOp> {
+        let src = |x: &str| x.parse::<u8>().ok().filter(|s| (*s as usize) < N_SRC);
+        let guard = |x: &str| x.parse::<u8>().ok().filter(|g| (*g as usize) < N_GUARDS);
+        match t {
+            "e" => return Some(EOp::End),
+            "q" => return Some(EOp::DropRt),
+            _ => {}
+        }
+        let (h, r) = t.split_at_checked(1)?;
+        match h {
+            "i" => {
+                let (g, s) = r.split_once(':')?;
+                Some(EOp::Install(guard(g)?, src(s)?))
+            }
+            "d" => Some(EOp::DropG(guard(r)?)),
+            "b" => Some(EOp::Begin(src(r)?)),
+            "r" => Some(EOp::InstallRt(src(r)?)),
+            "w" => Some(EOp::Wall(src(r)?)),
+            "a" => Some(EOp::Adv(src(r)?)),
+            "c" => {
+                let (k, s) = match r.split_once(':') {
+                    Some((k, s)) => (k, Some(src(s)?)),
+                    None => (r, None),
+                };
+                let kind = *DEFAULT_KINDS.iter().chain(EXPLICIT_KINDS.iter()).find(|x| x.code() == k)?;
+                if kind.explicit() != s.is_some() {
+                    return None;
+                }
+                Some(EOp::Construct(kind, s))
+            }
+            _ => None,
+        }
+    }
+}
+
+enum ObjImpl {
+    Sw(Stopwatch),
+    Timer(Timer),
+    Stamp(Timestamp),
+    OnClose(Option<TimestampOnClose>),
+}
+
+struct Obj {
+    o: ObjImpl,
+    /// harness bookkeeping at construction: total monotonic advance and wall clock of every source
+    adv_at: Vec<u128>,
+    wall_at: Vec<u128>,
+    /// what the probes added to a stopwatch so far
+    sw_total: u128,
+    probes: usize,
+}
+
+struct EnvCx<'x> {
+    ops: &'x [EOp],
+    i: usize,
+    fakes: Vec<ManuallyAdvancedTimeSource>,
+    srcs: Vec<TimeSource>,
+    wall: Vec<u128>,
+    adv: Vec<u128>,
+    guards: Vec<Option<ThreadLocalTimeSourceGuard>>,
+    rt_guard: Option<RuntimeTimeSourceGuard>,
+    objs: Vec<Obj>,
+    toks: Vec<String>,
+}
+
+impl EnvCx<'_> {
+    fn advance(&mut self, j: usize, ns: u128) {
+        self.fakes[j].update_instant(Duration::new((ns / 1_000_000_000) as u64, (ns % 1_000_000_000) as u32));
+        self.adv[j] += ns;
+    }
+    fn set_wall(&mut self, j: usize, ns: u128) {
+        self.fakes[j].update_time(wall_time(ns as i128));
+        self.wall[j] = ns;
+    }
+
+    /// Which clock drives the object, found by using it: `s<j>` if moving exactly source j's clock
+    /// moves its readings, `sys` if no fake source does; `~` appended when a reading is not exactly
+    /// what the harness's own bookkeeping of that source's clock says.
+    fn probe(&mut self, idx: usize) -> String {
+        let mut obj = std::mem::replace(&mut self.objs[idx].o, ObjImpl::OnClose(None));
+        let n = self.objs[idx].probes;
+        self.objs[idx].probes += 1;
+        let mut bound: Vec<usize> = vec![];
+        let mut exact = true;
+        let second = 1_000_000_000u128;
+        match &mut obj {
+            ObjImpl::Timer(t) => {
+                let e0 = (&*t).close().as_nanos();
+                let mut prev = e0;
+                for j in 0..N_SRC {
+                    self.advance(j, (j as u128 + 1) * second);
+                    let e = (&*t).close().as_nanos();
+                    if e == prev + (j as u128 + 1) * second {
+                        bound.push(j);
+                    }
+                    prev = e;
+                }
+                if let [j] = bound[..] {
+                    exact = e0 == self.adv[j] - (j as u128 + 1) * second - self.objs[idx].adv_at[j]
+                        // sources probed before j have moved by now, j itself not yet at e0
+                        ;
+                }
+            }
+            ObjImpl::Sw(sw) => {
+                for j in 0..N_SRC {
+                    let span = (j as u128 + 1) * second + n as u128;
+                    let got = if (n + j) % 2 == 0 {
+                        let g = sw.start();
+                        self.advance(j, span);
+                        g.stop().as_nanos()
+                    } else {
+                        let g = sw.start_owned();
+                        self.advance(j, span);
+                        g.stop().as_nanos()
+                    };
+                    if got == span {
+                        bound.push(j);
+                        self.objs[idx].sw_total += span;
+                    } else if got != 0 {
+                        // a clock nobody moved has moved: not one of the frozen fakes
+                        bound.push(usize::MAX);
+                    }
+                }
+                bound.dedup();
+                if let [j] = bound[..] {
+                    if j != usize::MAX {
+                        exact = (&*sw).close().map(|d| d.as_nanos()) == Some(self.objs[idx].sw_total);
+                    }
+                }
+                if bound.contains(&usize::MAX) {
+                    bound.clear();
+                }
+            }
+            ObjImpl::Stamp(t) => {
+                let v = ts_val((&*t).close());
+                let band = (v.ns / WALL_BAND) as usize;
+                if band >= 1 && band <= N_SRC {
+                    bound.push(band - 1);
+                    exact = check_ts_val(&v, self.objs[idx].wall_at[band - 1], "").is_none();
+                }
+            }
+            ObjImpl::OnClose(o) => {
+                if let Some(o) = o.take() {
+                    // the wall clocks move between construction and close
+                    for j in 0..N_SRC {
+                        let w = self.wall[j] + 777 + j as u128;
+                        self.set_wall(j, w);
+                    }
+                    let v = ts_val(o.close());
+                    let band = (v.ns / WALL_BAND) as usize;
+                    if band >= 1 && band <= N_SRC {
+                        bound.push(band - 1);
+                        exact = check_ts_val(&v, self.wall[band - 1], "").is_none();
+                    }
+                }
+            }
+        }
+        self.objs[idx].o = obj;
+        let b = match bound[..] {
+            [j] => format!("s{j}"),
+            [] => "sys".to_string(),
+            _ => "ambiguous".to_string(),
+        };
+        if exact { b } else { format!("{b}~") }
+    }
+
+    fn construct(&mut self, kind: Kind, s: Option<u8>) -> ObjImpl {
+        let ts = |cx: &EnvCx| cx.srcs[s.expect("explicit source") as usize].clone();
+        match kind {
+            Kind::Sn => ObjImpl::Sw(Stopwatch::new()),
+            Kind::Sd => ObjImpl::Sw(Stopwatch::default()),
+            Kind::Sx => ObjImpl::Sw(Stopwatch::new_from_timesource(ts(self))),
+            Kind::Tn => ObjImpl::Timer(Timer::start_now()),
+            Kind::Td => ObjImpl::Timer(Timer::default()),
+            Kind::Tx => ObjImpl::Timer(Timer::start_now_with_timesource(ts(self))),
+            Kind::Pn => ObjImpl::Stamp(Timestamp::now()),
+            Kind::Pd => ObjImpl::Stamp(Timestamp::default()),
+            Kind::Px => ObjImpl::Stamp(Timestamp::new_from_time_source(ts(self))),
+            Kind::Pt => ObjImpl::Stamp(Timestamp::new(ts(self).system_time())),
+            Kind::Od => ObjImpl::OnClose(Some(TimestampOnClose::default())),
+        }
+    }
+}
+
+/// runs operations until the sequence ends or the innermost `with_time_source` closure returns;
+/// `Err(())` = not expressible
+fn run_env_ops(cx: &mut EnvCx<'_>, depth: usize) -> Result<(), ()> {
+    loop {
+        if cx.i >= cx.ops.len() {
+            return Ok(());
+        }
+        let op = cx.ops[cx.i];
+        cx.i += 1;
+        match op {
+            EOp::Install(g, s) => {
+                if cx.guards[g as usize].is_some() {
+                    return Err(());
+                }
+                cx.guards[g as usize] = Some(set_time_source(cx.srcs[s as usize].clone()));
+                cx.toks.push("-".into());
+            }
+            EOp::DropG(g) => {
+                let guard = cx.guards[g as usize].take().ok_or(())?;
+                drop(guard);
+                cx.toks.push("-".into());
+            }
+            EOp::Begin(s) => {
+                cx.toks.push("-".into());
+                let ts = cx.srcs[s as usize].clone();
+                with_time_source(ts, || run_env_ops(cx, depth + 1))?;
+            }
+            EOp::End => {
+                if depth == 0 {
+                    return Err(());
+                }
+                cx.toks.push("-".into());
+                return Ok(());
+            }
+            EOp::InstallRt(s) => {
+                let ts = cx.srcs[s as usize].clone();
+                match catch(|| set_time_source_for_current_runtime(ts)) {
+                    Ok(g) => {
+                        if cx.rt_guard.is_some() {
+                            // a second guard while the first is alive: cannot happen (the call panics)
+                            cx.toks.push("second-runtime-guard".into());
+                        } else {
+                            cx.toks.push("-".into());
+                        }
+                        cx.rt_guard = Some(g);
+                    }
+                    Err(_) => cx.toks.push("panic".into()),
+                }
+            }
+            EOp::DropRt => {
+                let g = cx.rt_guard.take().ok_or(())?;
+                drop(g);
+                cx.toks.push("-".into());
+            }
+            EOp::Wall(s) => {
+                let w = cx.wall[s as usize] + 1_000_000_007;
+                cx.set_wall(s as usize, w);
+                cx.toks.push("-".into());
+            }
+            EOp::Adv(s) => {
+                cx.advance(s as usize, 7_000_000_011 * (s as u128 + 1));
+                cx.toks.push("-".into());
+            }
+            EOp::Construct(kind, s) => {
+                let o = cx.construct(kind, s);
+                cx.objs.push(Obj { o, adv_at: cx.adv.clone(), wall_at: cx.wall.clone(), sw_total: 0, probes: 0 });
+                let idx = cx.objs.len() - 1;
+                // a TimestampOnClose can be closed only once: observed at the end
+                let tok = if kind == Kind::Od { "-".to_string() } else { cx.probe(idx) };
+                cx.toks.push(tok);
+            }
+        }
+    }
+}
+
+/// One `env` case on a thread of its own (thread-local overrides must start empty and may be left
+/// behind by out-of-order drops), inside a tokio runtime of its own (runtime-wide override).
+fn run_env(ops: &[EOp]) -> Option<String> {
+    let ops = ops.to_vec();
+    let r = std::thread::spawn(move || {
+        let rt = tokio::runtime::Builder::new_current_thread().build().expect("runtime");
+        rt.block_on(async {
+            let fakes: Vec<ManuallyAdvancedTimeSource> =
+                (0..N_SRC).map(|j| ManuallyAdvancedTimeSource::at_time(wall_time(((j as u128 + 1) * WALL_BAND) as i128))).collect();
+            let mut cx = EnvCx {
+                ops: &ops,
+                i: 0,
+                srcs: fakes.iter().map(|f| TimeSource::custom(f.clone())).collect(),
+                fakes,
+                wall: (0..N_SRC).map(|j| (j as u128 + 1) * WALL_BAND).collect(),
+                adv: vec![0; N_SRC],
+                guards: (0..N_GUARDS).map(|_| None).collect(),
+                rt_guard: None,
+                objs: vec![],
+                toks: vec![],
+            };
+            let res = catch(|| run_env_ops(&mut cx, 0));
+            match res {
+                Ok(Ok(())) => {
+                    // every object again, after all the installs and drops (OnClose: now)
+                    let n = cx.objs.len();
+                    let ends: Vec<String> = (0..n).map(|i| cx.probe(i)).collect();
+                    cx.toks.push(format!("end:{}", if ends.is_empty() { "-".to_string() } else { ends.join(",") }));
+                    Some(cx.toks.join(" "))
+                }
+                Ok(Err(())) => None,
+                Err(p) => Some(format!("panic:{p}")),
+            }
+        })
+    })
+    .join();
+    match r {
+        Ok(x) => x,
+        Err(_) => Some("panic:thread".into()),
+    }
+}
+
+/// LIFO discipline: every guard drop / scope end concerns the innermost active override
+fn env_lifo(ops: &[EOp]) -> bool {
+    let mut stack: Vec<Option<u8>> = vec![];
+    for o in ops {
+        match o {
+            EOp::Install(g, _) => stack.push(Some(*g)),
+            EOp::Begin(_) => stack.push(None),
+            EOp::DropG(g) => {
+                if stack.last() != Some(&Some(*g)) {
+                    return false;
+                }
+                stack.pop();
+            }
+            EOp::End => {
+                if stack.last() != Some(&None) {
+                    return false;
+                }
+                stack.pop();
+            }
+            _ => {}
+        }
+    }
+    true
+}
+
+/// Oracle, from the property statement ("the injected time source"): an object built with an
+/// explicit source follows that source; one built through a default constructor follows the
+/// innermost override still in effect at that moment (thread-local before runtime-wide), the
+/// system clock only if there is none; it keeps following it whatever is installed or dropped later;
+/// and every reading is exactly that source's clock. After an out-of-order guard drop the statement
+/// does not say which override is "in effect": from then on only exactness is judged here (the
+/// binding by the model).
+fn oracle_env(ops: &[EOp], out: &str) -> Option<String> {
+    if out.starts_with("panic:") {
+        return Some(format!("the implementation panicked: {out}"));
+    }
+    let toks: Vec<&str> = out.split(' ').collect();
+    if toks.len() != ops.len() + 1 {
+        return Some(format!("{} observations for {} operations", toks.len(), ops.len()));
+    }
+    let mut stack: Vec<(Option<u8>, u8)> = vec![];
+    let mut lifo = true;
+    let mut rt: Option<u8> = None;
+    let mut expected: Vec<Option<String>> = vec![];
+    for (i, op) in ops.iter().enumerate() {
+        let tok = toks[i];
+        if tok.ends_with('~') {
+            return Some(format!("operation {i} ({}): the object's readings are not exactly its source's clock ({tok})", op.enc()));
+        }
+        if tok == "ambiguous" || tok == "second-runtime-guard" {
+            return Some(format!("operation {i} ({}): {tok}", op.enc()));
+        }
+        let mut want = "-".to_string();
+        match *op {
+            EOp::Install(g, s) => stack.push((Some(g), s)),
+            EOp::Begin(s) => stack.push((None, s)),
+            EOp::DropG(g) => {
+                if stack.last().map(|x| x.0) == Some(Some(g)) {
+                    stack.pop();
+                } else {
+                    lifo = false;
+                }
+            }
+            EOp::End => {
+                if stack.last().map(|x| x.0) == Some(None) {
+                    stack.pop();
+                } else {
+                    lifo = false;
+                }
+            }
+            EOp::InstallRt(s) => {
+                if rt.is_some() {
+                    want = "panic".into();
+                } else {
+                    rt = Some(s);
+                }
+            }
+            EOp::DropRt => rt = None,
+            EOp::Wall(_) | EOp::Adv(_) => {}
+            EOp::Construct(kind, s) => {
+                let b = match s {
+                    Some(s) => format!("s{s}"),
+                    None => match stack.last().map(|x| x.1).or(rt) {
+                        Some(s) => format!("s{s}"),
+                        None => "sys".to_string(),
+                    },
+                };
+                let judged = lifo || s.is_some();
+                expected.push(if judged { Some(b.clone()) } else { None });
+                if kind == Kind::Od {
+                    want = "-".into();
+                } else if judged {
+                    want = b;
+                } else {
+                    want = tok.to_string();
+                }
+            }
+        }
+        if tok != want {
+            return Some(format!(
+                "operation {i} ({}): observed {tok}, the injected time source in effect gives {want}",
+                op.enc()
+            ));
+        }
+    }
+    let end = toks[ops.len()].strip_prefix("end:")?;
+    let ends: Vec<&str> = if end == "-" { vec![] } else { end.split(',').collect() };
+    if ends.len() != expected.len() {
+        return Some("wrong number of objects at the end".into());
+    }
+    for (k, (got, want)) in ends.iter().zip(expected.iter()).enumerate() {
+        if got.ends_with('~') || *got == "ambiguous" {
+            return Some(format!("at the end, object {k}: its readings are not exactly its source's clock ({got})"));
+        }
+        if let Some(w) = want {
+            if got != w {
+                return Some(format!("at the end, object {k} follows {got}; it was built when the injected source was {w}"));
+            }
+        }
+    }
+    None
+}
+
+fn env_nontrivial(ops: &[EOp]) -> bool {
+    // a default constructor used while an override is (or has been) installed
+    let first = ops.iter().position(|o| matches!(o, EOp::Install(..) | EOp::Begin(_) | EOp::InstallRt(_)));
+    first.map(|i| ops[i..].iter().any(|o| matches!(o, EOp::Construct(_, None)))).unwrap_or(false)
+}
+
+/// which operations are expressible next
+#[derive(Clone, Default)]
+struct EnvShape {
+    guards: [bool; N_GUARDS],
+    depth: usize,
+    rt_guard: bool,
+    rt_set: bool,
+    /// active overrides, innermost last: Some(g) named guard, None scope
+    stack: Vec<Option<u8>>,
+}
+
+impl EnvShape {
+    fn ok(&self, op: &EOp) -> bool {
+        match op {
+            EOp::Install(g, _) => !self.guards[*g as usize],
+            EOp::DropG(g) => self.guards[*g as usize],
+            EOp::End => self.depth > 0,
+            // installing over an existing runtime source panics (an observable), but with our own guard
+            // alive a *successful* second install cannot be told from the first: only when none is live
+            EOp::InstallRt(_) => true,
+            EOp::DropRt => self.rt_guard,
+            _ => true,
+        }
+    }
+    fn apply(&mut self, op: &EOp) {
+        match op {
+            EOp::Install(g, _) => {
+                self.guards[*g as usize] = true;
+                self.stack.push(Some(*g));
+            }
+            EOp::DropG(g) => {
+                self.guards[*g as usize] = false;
+                if let Some(p) = self.stack.iter().rposition(|x| *x == Some(*g)) {
+                    self.stack.remove(p);
+                }
+            }
+            EOp::Begin(_) => {
+                self.depth += 1;
+                self.stack.push(None);
+            }
+            EOp::End => {
+                self.depth -= 1;
+                if let Some(p) = self.stack.iter().rposition(|x| x.is_none()) {
+                    self.stack.remove(p);
+                }
+            }
+            EOp::InstallRt(_) => {
+                if !self.rt_set {
+                    self.rt_set = true;
+                    self.rt_guard = true;
+                }
+            }
+            EOp::DropRt => {
+                self.rt_guard = false;
+                self.rt_set = false;
+            }
+            _ => {}
+        }
+    }
+}
+
+fn gen_env(rng: &mut Rng, len: usize) -> Vec<EOp> {
+    let mut shape = EnvShape::default();
+    let mut ops = vec![];
+    let out_of_order = rng.chance(1, 6);
+    let max_depth = rng.range(1, 3) as usize;
+    while ops.len() < len {
+        let src = rng.below(N_SRC as u64) as u8;
+        let op = match rng.below(20) {
+            0..=3 if shape.stack.len() < max_depth => {
+                let free: Vec<u8> = (0..N_GUARDS as u8).filter(|g| !shape.guards[*g as usize]).collect();
+                if free.is_empty() { continue } else { EOp::Install(*rng.pick(&free), src) }
+            }
+            4..=6 if shape.stack.len() < max_depth => EOp::Begin(src),
+            7..=10 => {
+                // end the innermost override (LIFO), or — rarely — another one
+                let pick = if out_of_order && rng.chance(1, 2) && !shape.stack.is_empty() {
+                    shape.stack[rng.below(shape.stack.len() as u64) as usize]
+                } else {
+                    match shape.stack.last() {
+                        Some(x) => *x,
+                        None => continue,
+                    }
+                };
+                match pick {
+                    Some(g) => EOp::DropG(g),
+                    None => EOp::End,
+                }
+            }
+            11 => EOp::InstallRt(src),
+            12 => EOp::DropRt,
+            13 => if rng.chance(1, 2) { EOp::Wall(src) } else { EOp::Adv(src) },
+            14 | 15 => EOp::Construct(*rng.pick(&EXPLICIT_KINDS), Some(src)),
+            _ => EOp::Construct(*rng.pick(&DEFAULT_KINDS), None),
+        };
+        if !shape.ok(&op) {
+            continue;
+        }
+        // `e` ends the innermost *scope*; with a named guard installed inside it and still alive that
+        // is an out-of-order drop: only in the out-of-order stream
+        if op == EOp::End && shape.stack.last() != Some(&None) && !out_of_order {
+            continue;
+        }
+        shape.apply(&op);
+        ops.push(op);
+    }
+    ops
+}
+
+/// every expressible sequence of exactly `len` operations over a small alphabet: two named guards
+/// (sources 0, 1), a `with_time_source` scope (source 2), the runtime-wide source (3), and a default
+/// constructor (its kind cycles with the position)
+fn enumerate_env(prefix: &mut Vec<EOp>, shape: &EnvShape, len: usize, f: &mut impl FnMut(&[EOp])) {
+    if prefix.len() == len {
+        f(prefix);
+        return;
+    }
+    let kind = DEFAULT_KINDS[(prefix.len() * 3 + len) % DEFAULT_KINDS.len()];
+    let alphabet = [
+        EOp::Install(0, 0),
+        EOp::Install(1, 1),
+        EOp::DropG(0),
+        EOp::DropG(1),
+        EOp::Begin(2),
+        EOp::End,
+        EOp::InstallRt(3),
+        EOp::DropRt,
+        EOp::Construct(kind, None),
+    ];
+    for op in alphabet {
+        if !shape.ok(&op) {
+            continue;
+        }
+        let mut s = shape.clone();
+        s.apply(&op);
+        prefix.push(op);
+        enumerate_env(prefix, &s, len, f);
+        prefix.pop();
+    }
+}
+
 /// implementation output in the driver's reply format; `None` = inexpressible; panics are observables
 fn run_impl(c: &Case) -> Option<String> {
     let r = catch(|| match c {
@@ -710,6 +1392,7 @@ fn run_impl(c: &Case) -> Option<String> {
         Case::Timer { default_ts, ops } => run_timer(ops, *default_ts),
         Case::Ts { w0, ops } => run_ts(*w0, ops).map(|r| r.reply),
         Case::Resolve { e, t, r } => Some(run_resolve(*e, *t, *r)),
+        Case::Env { ops } => run_env(ops),
     });
     match r {
         Ok(x) => x,
@@ -938,6 +1621,7 @@ fn oracle(c: &Case, out: &str) -> Option<String> {
             oracle_ts(*w0, ops)
         }
         Case::Resolve { e, t, r } => oracle_resolve(*e, *t, *r, out),
+        Case::Env { ops } => oracle_env(ops, out),
     }
 }
 
@@ -954,6 +1638,7 @@ fn key_of(c: &Case) -> &'static str {
         Case::Timer { .. } => "timers:timer",
         Case::Ts { .. } => "timers:timestamp",
         Case::Resolve { .. } => "timers:get_time_source",
+        Case::Env { .. } => "timers:time_source_overrides",
     }
 }
 
@@ -985,6 +1670,7 @@ fn shrink(c: &Case) -> Case {
         },
         Case::Ts { w0, ops } => Case::Ts { w0: *w0, ops: shrink_list(ops, |o| fails(&Case::Ts { w0: *w0, ops: o.to_vec() })) },
         Case::Resolve { .. } => c.clone(),
+        Case::Env { ops } => Case::Env { ops: shrink_list(ops, |o| fails(&Case::Env { ops: o.to_vec() })) },
     }
 }
 
@@ -1217,6 +1903,7 @@ fn nontrivial(c: &Case) -> bool {
             first_new.map(|i| ops[i..].iter().any(|o| matches!(o, SOp::Wall(_)))).unwrap_or(false)
         }
         Case::Resolve { e, t, r } => (*e as u8 + *t as u8 + *r as u8) >= 2,
+        Case::Env { ops } => env_nontrivial(ops),
     }
 }
 
@@ -1354,6 +2041,42 @@ fn measure(c: &Case, out: &str, sh: &mut Shard) {
             sh.bump("component:get_time_source", 1);
             sh.bump(&format!("resolve:{out}"), 1);
         }
+        Case::Env { ops } => {
+            sh.bump("component:time-source overrides", 1);
+            let mut depth = 0usize;
+            let mut max_depth = 0usize;
+            for o in ops {
+                match o {
+                    EOp::Install(..) | EOp::Begin(_) => depth += 1,
+                    EOp::DropG(_) | EOp::End => depth = depth.saturating_sub(1),
+                    _ => {}
+                }
+                max_depth = max_depth.max(depth);
+                sh.bump(
+                    &match o {
+                        EOp::Install(..) => "env op:set_time_source".to_string(),
+                        EOp::DropG(_) => "env op:drop guard".to_string(),
+                        EOp::Begin(_) => "env op:with_time_source begin".to_string(),
+                        EOp::End => "env op:with_time_source end".to_string(),
+                        EOp::InstallRt(_) => "env op:set runtime source".to_string(),
+                        EOp::DropRt => "env op:drop runtime guard".to_string(),
+                        EOp::Wall(_) | EOp::Adv(_) => "env op:move a clock".to_string(),
+                        EOp::Construct(k, _) => format!("env constructor:{}", k.name()),
+                    },
+                    1,
+                );
+            }
+            sh.bump(&format!("env max nesting depth:{}", max_depth.min(4)), 1);
+            sh.bump(if env_lifo(ops) { "env drop order:LIFO" } else { "env drop order:out of order (binding judged by the model only)" }, 1);
+            for t in out.split(' ') {
+                let t = t.strip_prefix("end:").unwrap_or(t);
+                for b in t.split(',') {
+                    if b.starts_with('s') {
+                        sh.bump(if b == "sys" { "env binding:system clock" } else { "env binding:a fake source" }, 1);
+                    }
+                }
+            }
+        }
     }
 }
 
@@ -1435,6 +2158,7 @@ fn shrink_disagreement(c: &Case, driver: &Option<String>) -> Case {
         Case::Timer { default_ts, ops } => Case::Timer { default_ts: *default_ts, ops: shrink_list(ops, |o| disagrees(&Case::Timer { default_ts: *default_ts, ops: o.to_vec() })) },
         Case::Ts { w0, ops } => Case::Ts { w0: *w0, ops: shrink_list(ops, |o| disagrees(&Case::Ts { w0: *w0, ops: o.to_vec() })) },
         Case::Resolve { .. } => c.clone(),
+        Case::Env { ops } => Case::Env { ops: shrink_list(ops, |o| disagrees(&Case::Env { ops: o.to_vec() })) },
     }
 }
 
@@ -1479,6 +2203,10 @@ fn targeted_search(c: &Case, rng: &mut Rng, budget: u64, rep: &mut Report) {
                 Case::Ts { w0, ops }
             }
             Case::Resolve { .. } => Case::Resolve { e: rng.chance(1, 2), t: rng.chance(1, 2), r: rng.chance(1, 2) },
+            Case::Env { .. } => {
+                let len = rng.range(2, 12) as usize;
+                Case::Env { ops: gen_env(rng, len) }
+            }
         };
         rep.search_cases += 1;
         if fails(&cand) {
@@ -1594,6 +2322,28 @@ fn main() {
         // (5) get_time_source: all eight configurations
         for bits in 0..8 {
             cur.push(Case::Resolve { e: bits & 1 != 0, t: bits & 2 != 0, r: bits & 4 != 0 });
+        }
+        work.push(Work::Batch(std::mem::take(&mut cur)));
+        // (6) time-source overrides over time: exhaustive short sequences, then random nested ones
+        let el = if thorough { 7 } else { 6 };
+        let mut n_env = 0u64;
+        enumerate_env(&mut vec![], &EnvShape::default(), el, &mut |ops| {
+            // only sequences that construct something
+            if ops.iter().any(|o| matches!(o, EOp::Construct(..))) {
+                n_env += 1;
+                cur.push(Case::Env { ops: ops.to_vec() });
+                if cur.len() >= 500 {
+                    work.push(Work::Batch(std::mem::take(&mut cur)));
+                }
+            }
+        });
+        rep.bump_by(&format!("env exhaustive: expressible sequences of length {el} with a construction"), n_env);
+        for _ in 0..(if thorough { 120_000 } else { 8_000 }) {
+            let len = rng.range(3, 16) as usize;
+            cur.push(Case::Env { ops: gen_env(&mut rng, len) });
+            if cur.len() >= 500 {
+                work.push(Work::Batch(std::mem::take(&mut cur)));
+            }
         }
         work.push(Work::Batch(std::mem::take(&mut cur)));
         rep.exhaustive = true;
